@@ -144,7 +144,7 @@ def stage_digestdiff(st, prop, tier, seed, say):
     mism = sorted(k for k in a if k in b and a[k] != b[k])
     for k in mism[:50]:
         out["violations"].append(dict(run=k, cls="c12:nondeterminism(builds)", site="outcome digest differs between -ftrivial-auto-var-init=zero and =pattern builds",
-                                      detail="%s vs %s" % (a[k], b[k]), tags=[], case=None, variant="gzero", part=st["part"], rerun_same=True, differential=True))
+                                      detail="%s vs %s" % (a[k], b[k]), tags=[], case=None, variant="gzero", part=st["part"], rerun_same=True, differential=True, block=st["block"]))
     out["keys"] = ["d:" + v for v in set(a.values())]
     out["record"] = dict(name=st["name"], builds=["gzero", "gpat"], runs_each=runs, compared=len(set(a) & set(b)), digest_mismatches=len(mism),
                          distinct_outcome_digests=len(set(a.values())), wall_s=round(time.time() - t0, 1))
@@ -318,6 +318,10 @@ def report_violation(prop, tier, seed, cls, vs, say):
     if v.get("differential"):
         return report_differential(prop, tier, seed, cls, v, case)
     classes, raw = R.evaluate_case(variant, case, timeout=300)
+    if cls not in classes and cls.startswith("c12:nondeterminism"):
+        # An outcome that depends on leftover heap contents depends on what the process did before: reproduce it
+        # the way it was found, by re-executing the worker block up to this run in a fresh process (twice).
+        return report_block(prop, tier, seed, cls, v, case)
     if cls not in classes:
         return dict(machinery="fresh-process replay of run %s did not reproduce %s (got %s)" % (v["run"], cls, classes))
     if case.get("mode") == "cold":
@@ -353,7 +357,7 @@ def report_differential(prop, tier, seed, cls, v, case):
         d1, c1 = _digest_of("gpat", c)
         return d0 is not None and d1 is not None and d0 != d1
     if not differs(case):
-        return dict(machinery="fresh-process replay of run %s did not reproduce the gzero/gpat digest difference" % v["run"])
+        return report_block(prop, tier, seed, cls, v, case)
     cur = case
     execs = 0
     improved = True
@@ -372,6 +376,36 @@ def report_differential(prop, tier, seed, cls, v, case):
     path = os.path.join(VERIF, "replays", "%s-%s-%d-%s.json" % (prop, _slug(cls), seed, v["run"]))
     rep = dict(format=1, property=prop, build="gzero", differential_with="gpat", origin_seed=seed, tier=tier, stage=v.get("stage"), run_index=v["run"],
                **{"class": cls}, site=v.get("site", ""), detail=v.get("detail", ""), case=cur, minimisation=dict(reexecutions=execs))
+    with open(path, "w") as f:
+        json.dump(rep, f, indent=1)
+    return dict(path=path, cls=cls, site=v.get("site", ""))
+
+
+def report_block(prop, tier, seed, cls, v, case):
+    """Gate and report a violation that only reproduces in the context of its worker block."""
+    part = v.get("part", "")
+    run = v["run"]
+    block = v.get("block") or 1000
+    start = v.get("proc_start", (run // block) * block)
+    differential = bool(v.get("differential"))
+    def once():
+        if differential:
+            _, d0 = R.block_replay("gzero", prop, tier, seed, part, start, run, want_digest=True)
+            _, d1 = R.block_replay("gpat", prop, tier, seed, part, start, run, want_digest=True)
+            return (d0, d1), (d0 is not None and d1 is not None and d0 != d1)
+        classes, _ = R.block_replay(v["variant"], prop, tier, seed, part, start, run)
+        return tuple(sorted(set(classes))), cls in classes
+    a, ok_a = once()
+    b, ok_b = once()
+    if not (ok_a and ok_b and a == b):
+        return dict(machinery="run %s: %s reproduced neither alone in a fresh process nor by re-executing its worker block from %s (%s / %s)" % (run, cls, start, a, b))
+    os.makedirs(os.path.join(VERIF, "replays"), exist_ok=True)
+    path = os.path.join(VERIF, "replays", "%s-%s-%d-%s.json" % (prop, _slug(cls), seed, run))
+    rep = dict(format=1, property=prop, build=("gzero" if differential else v["variant"]), differential_with=("gpat" if differential else None), origin_seed=seed, tier=tier,
+               stage=v.get("stage"), run_index=run, **{"class": cls}, site=v.get("site", ""), detail=v.get("detail", ""), case=case,
+               block_replay=dict(part=part, start=start, run=run, note="the outcome depends on leftover heap contents, i.e. on what the process executed before this run; "
+                                 "replay re-executes the worker from `start` to `run` in a fresh process, which is a pure function of the seed and the indices"),
+               minimisation=dict(reexecutions=0, note="not minimised: the case only fails in the context of its block"))
     with open(path, "w") as f:
         json.dump(rep, f, indent=1)
     return dict(path=path, cls=cls, site=v.get("site", ""))
